@@ -582,6 +582,12 @@ def table_and_columns_preferred_widths(context, box, outer=True):
                 constrainedness, intrinsic_percentages, max_content_widths,
                 column_slice)
 
+    # Distributing the width of spanning cells can make a column's min-content
+    # width larger than its max-content width
+    max_content_widths = [
+        max(max_content, min_content) for max_content, min_content
+        in zip(max_content_widths, min_content_widths)]
+
     # Calculate the max- and min-content widths of table and columns
     small_percentage_contributions = [
         max_content_widths[i] / (intrinsic_percentages[i] / 100)
